@@ -31,7 +31,7 @@ enum SP {
     Discard,
     Var(usize),
     As(usize, Box<SP>),
-    I(i64),
+    I(i128),
     B(Vec<u8>),
     K(usize, usize, Vec<SP>),
 }
